@@ -1881,7 +1881,7 @@ impl<'a> Parser<'a> {
         let start = self.current.span;
         self.require_token(&TokenKind::Import)?;
 
-        let type_only = self.match_token(&TokenKind::Type);
+        let mut type_only = self.match_token(&TokenKind::Type);
 
         let mut specifiers = vec![];
 
@@ -1935,26 +1935,43 @@ impl<'a> Parser<'a> {
                 span: local.span,
             });
         } else if self.match_token(&TokenKind::LBrace) {
+            let mut value_specifiers = specifiers.len();
+            let mut type_specifiers = 0;
             while !self.check(&TokenKind::RBrace) && !self.is_at_end() {
                 let spec_start = self.current.span;
-                let imported = self.parse_identifier()?;
+                // Inline type-only specifier: import { type A, type B as C, value }
+                let inline_type = self.check(&TokenKind::Type) && self.peek_starts_specifier();
+                if inline_type {
+                    self.advance(); // consume 'type'
+                }
+                let imported = self.parse_module_export_name()?;
                 let local = if self.match_token(&TokenKind::As) {
                     self.parse_identifier()?
                 } else {
                     imported.clone()
                 };
                 let span = self.span_from(spec_start);
-                specifiers.push(ImportSpecifier::Named {
-                    local,
-                    imported,
-                    span,
-                });
+                if inline_type {
+                    // erased: binds nothing
+                    type_specifiers += 1;
+                } else {
+                    value_specifiers += 1;
+                    specifiers.push(ImportSpecifier::Named {
+                        local,
+                        imported,
+                        span,
+                    });
+                }
 
                 if !self.match_token(&TokenKind::Comma) {
                     break;
                 }
             }
             self.require_token(&TokenKind::RBrace)?;
+            // Only types are imported: the whole declaration is erased
+            if type_specifiers > 0 && value_specifiers == 0 {
+                type_only = true;
+            }
         }
 
         self.require_token(&TokenKind::From)?;
@@ -2070,6 +2087,11 @@ impl<'a> Parser<'a> {
 
             while !self.check(&TokenKind::RBrace) && !self.is_at_end() {
                 let spec_start = self.current.span;
+                // Inline type-only specifier: export { type A, value }
+                let inline_type = self.check(&TokenKind::Type) && self.peek_starts_specifier();
+                if inline_type {
+                    self.advance(); // consume 'type'
+                }
                 // In export specifiers, 'default' is allowed as a name
                 let local = self.parse_module_export_name()?;
                 let exported = if self.match_token(&TokenKind::As) {
@@ -2078,11 +2100,13 @@ impl<'a> Parser<'a> {
                     local.clone()
                 };
                 let span = self.span_from(spec_start);
-                specifiers.push(ExportSpecifier {
-                    local,
-                    exported,
-                    span,
-                });
+                if !inline_type {
+                    specifiers.push(ExportSpecifier {
+                        local,
+                        exported,
+                        span,
+                    });
+                }
 
                 if !self.match_token(&TokenKind::Comma) {
                     break;
@@ -5196,6 +5220,21 @@ impl<'a> Parser<'a> {
         let next = self.lexer.next_token();
         self.lexer.restore(checkpoint);
         mem::discriminant(&next.kind) == mem::discriminant(kind)
+    }
+
+    /// At `type` in an import / export list: is it the modifier of a specifier that follows
+    /// (`type A`, `type default as B`), rather than a binding called `type` (`type`, `type as T`)?
+    fn peek_starts_specifier(&mut self) -> bool {
+        let checkpoint = self.lexer.checkpoint();
+        let next = self.lexer.next_token().kind;
+        let after = self.lexer.next_token().kind;
+        self.lexer.restore(checkpoint);
+        match next {
+            // `type as as T` / `type as` ..: only `type as <name>` keeps `type` as a binding
+            TokenKind::As => matches!(after, TokenKind::As | TokenKind::Comma | TokenKind::RBrace),
+            TokenKind::Comma | TokenKind::RBrace => false,
+            _ => true,
+        }
     }
 
     /// Check if the next token (after current) is an identifier
